@@ -1,3 +1,4 @@
+from operator import index
 from typing import Optional
 
 import numpy as np
@@ -101,6 +102,8 @@ class TimeSeriesMixedEdgeGraph(BaseTimeSeriesGraph, pywhy_nx.MixedEdgeGraph):
         See :meth:`BaseTimeSeriesGraph.set_max_lag`. Every edge-type sub-graph keeps
         its own window, so each of them adds (removes) its own nodes and homologous edges.
         """
+        # the lag must be an integer (TypeError otherwise): checked before anything is modified
+        lag = index(lag)
         if lag <= 0:
             raise ValueError(
                 f"Max lag must always be greater than 0, so passed in {lag} value is invalid."
